@@ -10,6 +10,10 @@ TNext == \/ IsEvent("CCall")      /\ CCall(Rec[l].f, Rec[l].v, "mr" \in DOMAIN R
          \/ IsEvent("RustEnter")  /\ Enter(Rec[l].f, Rec[l].v)
          \/ IsEvent("RustReturn") /\ Return(Rec[l].f, Rec[l].v)
          \/ IsEvent("CReturn")    /\ CReturn(Rec[l].f, Rec[l].v)
+         \* the refusal itself is internal to the binding: compose Reject . CReturn when the caller reports the Utf8Error arm
+         \/ (IsEvent("CReturn") /\ stack # <<>> /\ ~rejected /\ Rec[l].v = "err(utf8)"
+               /\ (IF stack = <<>> THEN FALSE ELSE (Top.phase = "called" /\ Top.mr /\ Top.f = Rec[l].f))
+               /\ Pop /\ UNCHANGED <<rejected, entered>>)
          \/ IsEvent("CbInvoke")   /\ CCall(Rec[l].f, Rec[l].v, FALSE)
          \/ IsEvent("CbEnter")    /\ Enter(Rec[l].f, Rec[l].v)
          \/ IsEvent("CbReturn")   /\ Return(Rec[l].f, Rec[l].v)
